@@ -190,6 +190,11 @@ func (s *sim) drawKnobs() {
 		ls.slowKind = []string{"app", "read", "write", "version", "verack"}[simkit.Pick(c, "slow-kind", 3, 3, 3, 2, 1)]
 		ls.slowNth = simkit.Range(c, -1, 6, "slow-nth")
 		ls.slowDur = []time.Duration{10 * time.Millisecond, time.Second, 16 * time.Second, 31 * time.Second, 20 * time.Second}[simkit.Pick(c, "slow-dur", 3, 3, 2, 1, 1)]
+		// off the millisecond grid of the driver's clock steps and the peer's
+		// tickers, so that a listener never wakes up at the very instant a
+		// timer of the peer fires (two goroutines made runnable at the same
+		// simulated instant run in an order the runtime chooses)
+		ls.slowDur += 137 * time.Microsecond
 		s.slowEnabled = true
 		s.r.FaultEnabled("slow_listener")
 	}
@@ -621,7 +626,7 @@ func (s *sim) stepDeliver() bool {
 	if !rm.remaining() {
 		return false
 	}
-	if detMode && s.conn.PendingRead() > 0 {
+	if detMode && (s.conn.PendingRead() > 0 || !s.conn.ReaderBlocked()) {
 		// The peer has not consumed what it was given (a listener is asleep, a
 		// goroutine is parked, a write is stalled).  A backlog of input is read
 		// by the input side concurrently with whatever the output side is
@@ -713,6 +718,11 @@ func (s *sim) closeErrs() (error, error, string) {
 }
 
 func (s *sim) stepRemoteClose() {
+	if detMode && !s.conn.ReaderBlocked() {
+		// same tie as an input backlog (see stepDeliver): the end of stream
+		// would be noticed concurrently with whatever else wakes the peer up
+		return
+	}
 	s.beginStep("remote-close", false)
 	mid := s.rm.midMessage()
 	if mid {
